@@ -1,5 +1,148 @@
 package runner
 
-import "verif/internal/spec"
+import (
+	"encoding/json"
+	"fmt"
+	"strconv"
+	"strings"
 
-func (r *Runner) runHistory(it *spec.Item) {}
+	"verif/internal/ag"
+	"verif/internal/obs"
+	"verif/internal/ri"
+	"verif/internal/spec"
+)
+
+// runHistory explores every history of at most Depth inputs (over the item's input menu) on one
+// long-lived parser instance, for every (U, Size, memo) configuration, and compares each step
+// with a fresh instance given that input alone (property C12).
+func (r *Runner) runHistory(it *spec.Item) {
+	g := it.G
+	gshow := ag.Show(g)
+	interp := ri.New(g)
+	interp.MaxSteps = 5000000
+	menu := decodeSyms(it, it.Extra)
+	us := it.Us
+	if len(us) == 0 {
+		us = []string{"uint32"}
+	}
+	sizes := it.Sizes
+	if len(sizes) == 0 {
+		sizes = []int{-1}
+	}
+	want := obs.WantExec | obs.WantAST | obs.WantErr
+	ser := func(o obs.Obs) string {
+		b, _ := json.Marshal(o)
+		return string(b)
+	}
+	show := func(s string) string {
+		if len(s) > 24 {
+			return fmt.Sprintf("%q…(%d bytes)", s[:12], len(s))
+		}
+		return strconv.Quote(s)
+	}
+	for _, v := range it.Variants {
+		if !v.Built {
+			continue
+		}
+		pkg, ok := r.table[fmt.Sprintf("%d/%s", it.Idx, v.Name)]
+		if !ok || !pkg.HasAST {
+			continue
+		}
+		// reference observation: fresh uint32 instance without Size
+		base := map[string]string{}
+		for _, in := range menu {
+			o := pkg.New("uint32", -1, false).Step(obs.Req{Input: in, Want: want})
+			base[in] = ser(o)
+			// tie the reference observation to the reference interpreter (short inputs only)
+			if len(in) <= 64 {
+				ref := interp.Parse(g.Rules[0].Name, []rune(in))
+				c := &caseCtx{it, gshow, v.Name, "", in, false, false}
+				if ref.Abort == "" && o.Panic == "" {
+					if o.OK != ref.OK {
+						r.mismatch(c, "C12", "fresh-verdict-vs-model", fmt.Sprint(ref.OK), fmt.Sprint(o.OK), "")
+					} else if o.OK && normActions(tokStr(o.Toks)) != normActions(riTokStr(ref.Toks)) {
+						r.mismatch(c, "C12", "fresh-tokens-vs-model", riTokStr(ref.Toks), tokStr(o.Toks), "")
+					}
+				}
+			}
+		}
+		for _, u := range us {
+			for _, size := range sizes {
+				for memo := 0; memo < 2; memo++ {
+					cfg := fmt.Sprintf("U=%s Size=%d nomemo=%v", u, size, memo == 1)
+					// fresh observations in this configuration must equal the reference configuration
+					fresh := map[string]string{}
+					for _, in := range menu {
+						key := fmt.Sprintf("%d|hist|%s|%s|%s", it.Idx, v.Name, cfg, show(in))
+						r.progress(key)
+						o := pkg.New(u, size, memo == 1).Step(obs.Req{Input: in, Want: want})
+						fresh[in] = ser(o)
+						r.eval("C12", u != "uint32" || size != -1, key, nil)
+						if fresh[in] != base[in] {
+							c := &caseCtx{it, gshow, v.Name, "", in, memo == 1, false}
+							r.mismatch(c, "C12", "configuration", "as with U=uint32, Size unset: "+base[in], cfg+": "+fresh[in], cfg)
+						}
+					}
+					// all histories of length 1..Depth
+					d := it.Depth
+					idx := make([]int, d)
+					var nodes, steps int64
+					var walk func(level int, inst obs.Inst, prefix []string)
+					// histories are enumerated as a tree; each leaf path is executed on its own instance
+					var leaves func(level int)
+					leaves = func(level int) {
+						if level == d {
+							inst := pkg.New(u, size, memo == 1)
+							hist := make([]string, 0, d)
+							for k := 0; k < d; k++ {
+								in := menu[idx[k]]
+								hist = append(hist, show(in))
+								o := inst.Step(obs.Req{Input: in, Want: want})
+								steps++
+								if got := ser(o); got != fresh[in] {
+									c := &caseCtx{it, gshow, v.Name, "", in, memo == 1, false}
+									hs := strings.Join(hist, " -> ")
+									r.mismatch(c, "C12", "history", "fresh parser on "+show(in)+": "+fresh[in], "after history "+hs+": "+got, cfg+"|"+hs)
+									return // later steps of this history run on a polluted instance
+								}
+							}
+							return
+						}
+						for i := range menu {
+							idx[level] = i
+							nodes++
+							leaves(level + 1)
+						}
+					}
+					_ = walk
+					if d > 0 {
+						r.progress(fmt.Sprintf("%d|hist|%s|%s|histories", it.Idx, v.Name, cfg))
+						leaves(0)
+					}
+					c := r.counter("C12")
+					c.States += nodes
+					c.Trans += steps
+					if len(c.Samples) < 4 && d > 0 {
+						c.Samples = append(c.Samples, fmt.Sprintf("%s [%s] %s: all %d histories of length %d over menu %v (%d steps), each step equal to a fresh parser", gshow, spec.VariantName(v.Name), cfg, pow(len(menu), d), d, showAll(menu, show), steps))
+					}
+				}
+			}
+		}
+	}
+}
+
+func pow(b, e int) int {
+	r := 1
+	for i := 0; i < e; i++ {
+		r *= b
+	}
+	return r
+}
+
+func showAll(ss []string, f func(string) string) []string {
+	out := make([]string, len(ss))
+	for i, s := range ss {
+		out[i] = f(s)
+	}
+	return out
+}
